@@ -28,7 +28,7 @@ func HarnessC16a() {
 	c, err := t.Clone(vctx)
 	verifAssert("C01.clone.err", err == nil)
 	verifAssert("C16.clone-reads-top-only", st.nLoad-n0 <= 1)
-	k, v := verifNondetU64("k"), verifNondetU64("v")
+	k, v := verifNondetKey("k"), verifNondetVal("v")
 	switch verifChoose("op", 3) {
 	case 0:
 		var out uint64
